@@ -4,8 +4,12 @@
                            the second cycle uses the format the loader recorded)
    (load xBYTES)       ->  <loadres>
    <saveres> ::= (saved xBYTES <doc-after-save>) | (invalid-mark xBYTES) | (save-panic xBYTES)
-   <loadres> ::= (loaded <doc> table|stream) | (err <class>) | (load-panic) | (out) | (unmodelled) *)
-From LV Require Import Base.Bytes Base.Sx Model.Obj Model.Writer Model.Save Model.Xref Model.Loader.
+   <loadres> ::= (loaded <doc> table|stream) | (err <class>) | (load-panic) | (out) | (unmodelled)
+                 | (models-disagree <loadres of Loader.load> <loadres of LoaderExt.load_plain>)
+   Every file is loaded by BOTH loader models: Model/Loader.v (the one the theorems are about) and its extension
+   Model/LoaderExt.v (Length as a reference, object streams).  Where Loader.load answers, the two must agree (else
+   models-disagree, which no implementation output equals); where it says (unmodelled) the extension answers. *)
+From LV Require Import Base.Bytes Base.Sx Model.Obj Model.Writer Model.Save Model.Xref Model.Loader Model.LoaderExt.
 
 Definition saveres_to_sx (r : save_out) : sx :=
   match so_status r with
@@ -37,6 +41,17 @@ Definition loadres_to_sx (r : lres) : sx :=
   | LUnmodelled => SL [sx_id "unmodelled"]
   end.
 
+Definition load_both (b : bytes) : lres * sx :=
+  let a := load b in
+  let e := load_plain b in
+  match a with
+  | LUnmodelled => (e, loadres_to_sx e)
+  | _ =>
+    let sa := loadres_to_sx a in
+    let se := loadres_to_sx e in
+    if bytes_eqb (sx_print sa) (sx_print se) then (a, sa) else (a, SL [sx_id "models-disagree"; sa; se])
+  end.
+
 Definition fmt_of_xtype (t : xtype) : xref_type := match t with XTTable => XTable | XTStream => XStream end.
 
 Definition run_rt (xt : xref_type) (d : doc) : sx :=
@@ -44,14 +59,14 @@ Definition run_rt (xt : xref_type) (d : doc) : sx :=
   SL (sx_id "rt" :: saveres_to_sx s1 ::
       match so_status s1 with
       | SaveOk =>
-        let l1 := load (so_bytes s1) in
-        loadres_to_sx l1 ::
+        let '(l1, x1) := load_both (so_bytes s1) in
+        x1 ::
         match l1 with
         | LOk d1 t1 =>
           let s2 := save (fmt_of_xtype t1) d1 in
           saveres_to_sx s2 ::
           match so_status s2 with
-          | SaveOk => [loadres_to_sx (load (so_bytes s2))]
+          | SaveOk => [snd (load_both (so_bytes s2))]
           | _ => []
           end
         | _ => []
@@ -71,7 +86,7 @@ Definition run (x : sx) : sx :=
   | SL [t; b] =>
     if is_id t "load" then
       match as_bytes b with
-      | Some b => loadres_to_sx (load b)
+      | Some b => snd (load_both b)
       | None => sx_id "badcase"
       end
     else sx_id "badcase"
